@@ -564,13 +564,23 @@ def minimize_subcircuits(
         for output in subcircuit.outputs:
             if output not in filtered_outputs:
                 negation_gate: Label = outputs_negation_mapping[output]
-                new_gate = output_labels_mapping[negation_gate]
+                # the negated gate is either another output or an input of the cut
+                new_gate = (
+                    output_labels_mapping[negation_gate]
+                    if negation_gate in output_labels_mapping
+                    else input_labels_mapping[negation_gate]
+                )
 
                 for user in new_subcircuit.get_gate_users(new_gate):
                     if new_subcircuit.get_gate(user).gate_type.name == 'NOT':
                         output_labels_mapping[output] = user
                         new_subcircuit.mark_as_output(user)
                         break
+                else:
+                    not_label: Label = f"not_{new_gate}_" + uuid.uuid4().hex
+                    new_subcircuit.emplace_gate(not_label, NOT, (new_gate,))
+                    output_labels_mapping[output] = not_label
+                    new_subcircuit.mark_as_output(not_label)
 
         # Changing initial circuit
         new_circuit: Circuit = copy.deepcopy(circuit)
